@@ -25,6 +25,55 @@ func (m *M1) Foo() {}
 type MI interface{ Foo() }
 type MJ interface{ Bar() }
 
+// Declared parameter / result objects that embed a struct whose type name is
+// unexported (legal with ignore-unexported, an error without).
+type malInnerIn struct {
+	dig.In
+	A *M0 `optional:"true"`
+}
+type malInnerReq struct {
+	dig.In
+	A *M0
+}
+type malInnerDeep struct {
+	malInnerIn
+	C []*M0 `group:"mg"`
+}
+type MalOuterIgnore struct {
+	dig.In `ignore-unexported:"true"`
+	malInnerIn
+	B *M0 `optional:"true"`
+}
+type MalOuterIgnoreReq struct {
+	dig.In `ignore-unexported:"true"`
+	malInnerReq
+	B *M0 `optional:"true"`
+}
+type MalOuterIgnoreDeep struct {
+	dig.In `ignore-unexported:"true"`
+	malInnerDeep
+	B []*M0 `group:"mg"`
+}
+type MalOuterIgnorePtr struct {
+	dig.In `ignore-unexported:"true"`
+	*malInnerIn
+	B *M0 `optional:"true"`
+}
+type MalOuterStrict struct {
+	dig.In
+	malInnerIn
+	B *M0 `optional:"true"`
+}
+type malInnerOut struct {
+	dig.Out
+	A *M1
+}
+type MalOuterOut struct {
+	dig.Out
+	malInnerOut
+	B *M2
+}
+
 type malCall struct {
 	fn    interface{}
 	popts []dig.ProvideOption
@@ -250,6 +299,25 @@ var malCases = []malCase{
 			return malCall{fn: errMalUnbuildable}
 		}
 		return malCall{fn: fnOf([]reflect.Type{t}, []reflect.Type{reflect.TypeOf((*M2)(nil))})}
+	}},
+	// declared shapes: reflect.StructOf cannot embed a struct whose type name
+	// is unexported, Go source can
+	{"invoke", "declared-embedded-unexported", func(m *Mal) malCall {
+		fns := []interface{}{func(MalOuterIgnore) {}, func(MalOuterIgnoreReq) {}, func(MalOuterStrict) {}, func(MalOuterIgnoreDeep) {},
+			func(*M2, MalOuterIgnore) {}, func(MalOuterIgnorePtr) {}}
+		return malCall{fn: fns[pick(m, len(fns))]}
+	}},
+	{"provide", "declared-embedded-unexported", func(m *Mal) malCall {
+		fns := []interface{}{func(MalOuterIgnore) *M2 { return &M2{} }, func(MalOuterIgnoreReq) *M2 { return &M2{} },
+			func(MalOuterStrict) *M2 { return &M2{} }, func(MalOuterIgnoreDeep) *M2 { return &M2{} },
+			func() MalOuterOut { return MalOuterOut{} }, func() (MalOuterOut, error) { return MalOuterOut{}, nil },
+			func(MalOuterIgnorePtr) *M2 { return &M2{} }}
+		return malCall{fn: fns[pick(m, len(fns))]}
+	}},
+	{"decorate", "declared-embedded-unexported", func(m *Mal) malCall {
+		fns := []interface{}{func(MalOuterIgnore) *M0 { return &M0{} }, func(MalOuterIgnoreReq) *M0 { return &M0{} },
+			func(*M1) MalOuterOut { return MalOuterOut{} }}
+		return malCall{fn: fns[pick(m, len(fns))]}
 	}},
 	{"provide", "unexported-out-field", func(m *Mal) malCall {
 		hf := reflect.StructField{Name: "hidden", PkgPath: "digsim", Type: m1T}
